@@ -18,7 +18,7 @@ func init() {
 		Name:  "REDEF",
 		Doc:   "filter-gated root edges, input-set provenance, exclusion of supplied inputs, output filter, forwarding of the generated function",
 		Run:   runRedef,
-		Floor: map[string]int{"REDEF-R1": 3, "REDEF-R2": 2, "REDEF-R3": 3, "REDEF-R4": 4, "REDEF-R5": 5},
+		Floor: map[string]int{"REDEF-R1": 3, "REDEF-R2": 2, "REDEF-R3": 3, "REDEF-R4": 4, "REDEF-R5": 6},
 	})
 }
 
@@ -403,7 +403,38 @@ func runRedef(c *Ctx) {
 					}
 				}
 			}
-			c.R.Add("REDEF-R4", "validator|every-output", "outputValidator", p.InstrPos(fcall), overOutputs, "every declared output is shown to the output filter", fmt.Sprintf("ok=%v", overOutputs))
+			// … and the loop has no early exit: from the filter call every way out of the function leads back through the
+			// loop header (a `break` or `return` after the first accepted output would leave the rest unexamined)
+			early := ""
+			for _, src := range core.Sources(fcall.Common().Args[0]) {
+				ld, ok := src.(*ssa.UnOp)
+				if !ok {
+					continue
+				}
+				ia, ok := ld.X.(*ssa.IndexAddr)
+				if !ok {
+					continue
+				}
+				var hdr *ssa.BasicBlock
+				switch ix := ia.Index.(type) {
+				case *ssa.Phi:
+					hdr = ix.Block()
+				case *ssa.BinOp:
+					if ph, ok := ix.X.(*ssa.Phi); ok {
+						hdr = ph.Block()
+					}
+				}
+				if hdr == nil {
+					early = "loop over the outputs not recognised"
+					continue
+				}
+				for _, r := range core.Returns(validator) {
+					if core.ReachableAvoiding(fcall.Block(), r.Block(), map[*ssa.BasicBlock]bool{hdr: true}) {
+						early = "the function can be left at " + p.InstrPos(r) + " from inside the loop without examining the remaining outputs"
+					}
+				}
+			}
+			c.R.Add("REDEF-R4", "validator|every-output", "outputValidator", p.InstrPos(fcall), overOutputs && early == "", "every declared output is shown to the output filter", fmt.Sprintf("ranges-over-outputs=%v %s", overOutputs, early))
 			// a rejected output makes the returned error non-nil
 			rejects := false
 			for _, r := range core.Returns(validator) {
@@ -770,6 +801,75 @@ func runRedef(c *Ctx) {
 					}
 				}
 			}
+		}
+		// the error-path result list is complete: every slot is filled with a zero value (a loop of reflect.Zero over all
+		// positions, or a copy from a list built that way) BEFORE the error is written into the last slot — an unfilled
+		// slot is an invalid reflect.Value (reflect.MakeFunc panics), a fill after the error store erases the error
+		{
+			nErr, complete, why := 0, true, ""
+			for _, g := range p.Region(body) {
+				core.Instrs(g, func(in ssa.Instruction) {
+					st, ok := in.(*ssa.Store)
+					if !ok {
+						return
+					}
+					ia, ok := st.Addr.(*ssa.IndexAddr)
+					if !ok {
+						return
+					}
+					mk, ok := ia.X.(*ssa.MakeSlice)
+					if !ok || core.TypeStr(mk.Type()) != "[]reflect.Value" {
+						return
+					}
+					cl, ok := st.Val.(*ssa.Call)
+					if !ok || core.CalleeName(cl.Common()) != "reflect.ValueOf" {
+						return
+					}
+					if b, ok := ia.Index.(*ssa.BinOp); !ok || b.Op != token.SUB {
+						return
+					}
+					nErr++
+					filled, late := false, false
+					core.Instrs(g, func(in2 ssa.Instruction) {
+						isFill := false
+						switch x := in2.(type) {
+						case *ssa.Store:
+							if ia2, ok := x.Addr.(*ssa.IndexAddr); ok && ia2.X == ssa.Value(mk) && x != st {
+								if z, ok := x.Val.(*ssa.Call); ok && core.CalleeName(z.Common()) == "reflect.Zero" {
+									switch ix := ia2.Index.(type) {
+									case *ssa.Phi:
+										isFill = isCounter(ix)
+									case *ssa.BinOp:
+										if ph, ok := ix.X.(*ssa.Phi); ok {
+											isFill = isCounter(ph)
+										}
+									}
+								}
+							}
+						case *ssa.Call:
+							if core.CalleeName(x.Common()) == "builtin.copy" && x.Common().Args[0] == ssa.Value(mk) {
+								isFill = true
+							}
+						}
+						if isFill {
+							filled = true
+							if core.CanFollow(st, in2) {
+								late = true
+							}
+						}
+					})
+					if !filled {
+						complete, why = false, "no zero-fill of every slot of the error-path result list at "+p.InstrPos(st)
+					} else if late {
+						complete, why = false, "a zero-fill of the result list can run after the error was stored at "+p.InstrPos(st)
+					}
+				})
+			}
+			if nErr == 0 {
+				complete, why = false, "no error-path result list found"
+			}
+			c.R.Add("REDEF-R5", "generated|error-result-complete", core.FuncName(body), p.Pos(body.Pos()), complete,
+				"on the error path every result slot holds a zero value and the error is written last", ternary(complete, "filled, then the error stored", why))
 		}
 		c.R.Add("REDEF-R5", "generated|returns-original-results", core.FuncName(body), p.Pos(body.Pos()), errPath && okPath,
 			"the generated function returns the original function's outputs, or zero values with the error in final position", fmt.Sprintf("error-path=%v success-path=%v", errPath, okPath))
